@@ -737,11 +737,12 @@ def run(chk):
         "no accept clause",
         "IPv6 chains the specification follows: any sequence of hop-by-hop (0), routing (43), fragment (44), destination options "
         "(60), mobility (135) headers, each whole and followed by at least one octet.  Restrictions taken from RFC 8200 §4.5 for "
-        "what a conforming peer sends: a fragment header has its reserved octet zero and offset 0 (first fragment).  Observed on "
-        "the code, outside the relation: IPv6::matches_response (like the IPv6 parser) takes the reserved octet of a fragment "
-        "header for a length, so a reply with a non-zero reserved octet is not followed; a reply that ends exactly with an "
-        "extension header is not followed (loop condition total_sz > 8); no-next-header (59) is walked like an extension header; "
-        "AH (51), ESP (50), HIP, shim6 are not walked.  These inputs are `unspecified` and compared model-vs-code only",
+        "what a conforming peer sends: a fragment header has its reserved octet zero and offset 0 (first fragment).  A non-zero "
+        "reserved octet is the known finding KF-C14-5 (the code takes it for a length; the oracle evaluates such replies on "
+        "their RFC view = the octet zeroed, clause fragment_reserved_ignored).  Also outside the relation, compared "
+        "model-vs-code only: a reply that ends exactly with an extension header is not followed (loop condition total_sz > 8; "
+        "such a packet has no upper layer); no-next-header (59) is walked like an extension header; AH (51), ESP (50), HIP, "
+        "shim6 are not walked",
         "DHCPv6 relay-forward / relay-reply *requests* have no clause (libtins never matches them: dhcpv6_matches_iff); "
         "SLL has no matcher and cannot be sent (PDU default: rawpdu_and_default)",
     ]
